@@ -169,7 +169,8 @@ theorem nothing_after_last_but_checksum {H : Type} (hash : Bool) (enc : BlockEnc
 
 /-- magic number, descriptor (no dictionary id, no content size, not single-segment, reserved bits
 zero, checksum flag = `hash` feature), window descriptor: the declared window covers the matcher's
-window and every block -/
+window AND the largest possible block, 128 KiB (the repair of F13; with the unrepaired code only
+`2048 ≤ declaredWindow w` held and a matcher with a small window got blocks above the declared window) -/
 theorem header_consistent {H : Type} (hash : Bool) (enc : BlockEnc H) (c : Compressor H) (w : Nat)
     (script : Nat → MBlock) (data : List Byte) (frags : List Nat) (hw : w ≤ 2 ^ 41)
     (frame : List Byte) (c' : Compressor H)
@@ -177,7 +178,7 @@ theorem header_consistent {H : Type} (hash : Bool) (enc : BlockEnc H) (c : Compr
     frame.take 4 = leBytes 4 Spec.magic ∧
     Spec.parseFrameHeader frame =
       some { desc := ⟨0, false, hash, 0⟩, window := declaredWindow w, dictId := none, contentSize := none, hdrLen := 6 } ∧
-    w ≤ declaredWindow w ∧ 2048 ≤ declaredWindow w := by
+    w ≤ declaredWindow w ∧ Gen.maxBlockSize ≤ declaredWindow w := by
   obtain ⟨e, r, he1, he31, hwe, hdw, _, hframe, _⟩ := compressFrame_parts hash enc c w script data frags hw frame c' hrun
   have hparse := parseFrameHeader_ours hash e he1 he31
     (r.bytes ++ (if hash then leBytes 4 (Spec.Xxh64.checksum32 r.hashed) else []))
@@ -186,10 +187,9 @@ theorem header_consistent {H : Type} (hash : Bool) (enc : BlockEnc H) (c : Compr
       (r.bytes ++ (if hash then leBytes 4 (Spec.Xxh64.checksum32 r.hashed) else [])) := by
     rw [hframe]; simp
   have hmagic : leBytes 4 Spec.magic = [40, 181, 47, 253] := by decide
-  refine ⟨by rw [hframe', hmagic]; rfl, by rw [hframe', hparse, hdw], by rw [hdw]; exact hwe, ?_⟩
-  rw [hdw]
-  have : 2 ^ 11 ≤ 2 ^ (10 + e) := Nat.pow_le_pow_right (by omega) (by omega)
-  omega
+  refine ⟨by rw [hframe', hmagic]; rfl, by rw [hframe', hparse, hdw], by rw [hdw]; exact hwe.1, ?_⟩
+  rw [hdw, maxBlockSize_eq]
+  exact hwe.2
 
 /-- **never larger than raw framing** (any matcher): input + 6 header bytes + 3 bytes per block + the
 checksum, where the number of blocks is the number of spaces the matcher was asked for -/
